@@ -5,7 +5,7 @@ from . import c05, c06
 
 ID = "C07"
 RULE = ("pass 1: honest ciphertext streams (controller -> accessory) for message sequences with lengths around 0, 1, the "
-        "caller's buffer size, 1023..1025 and k*1024, sealed by the x/crypto reference framer and by the Gallina model; "
+        "caller's buffer size, 1023..1025 and k*1024 (and streams of a self-framing peer with well-formed empty frames), sealed by the x/crypto reference framer and by the Gallina model; "
         "pass 2: hap.Connection.Read over a scripted net.Conn for segmentations of the stream (one byte per segment, "
         "every split offset of short 2-3 frame streams, whole stream in one segment, several frames per segment, random "
         "cuts), read timeouts between segments, caller buffer sizes 1, 7, 16, exact message length, 4096, 8192 and "
@@ -62,6 +62,15 @@ def run(res, a):
         streams.append((rng.choice(secrets), [rb(rng, n) for n in sh]))
     p1 = [{"id": "seal%d" % i, "line": "seal %s cli %s" % (s.hex(), " ".join(m.hex() for m in ms)), "kind": "seal"}
           for i, (s, ms) in enumerate(streams)]
+    # a peer that frames by itself and sends well-formed EMPTY frames (to carry an empty message, to end a message of
+    # k*1024 bytes): the bytes before and after them must arrive all the same
+    fshapes = [[0, 5], [5, 0, 3], [0, 0, 7], [1024, 0, 9], [1024, 1024, 0, 1], [3, 0]]
+    if not quick:
+        fshapes += [[rng.choice([0, 0, 1, 16, 1024]) for _ in range(rng.randrange(2, 6))] for _ in range(20)]
+    for sh in fshapes:
+        sec, ms = rng.choice(secrets), [rb(rng, n) for n in sh]
+        streams.append((sec, ms))
+        p1.append({"id": "seal%d" % (len(streams) - 1), "line": "sealf %s cli %s" % (sec.hex(), " ".join(m.hex() if m else "-" for m in ms)), "kind": "seal"})
 
     class P1:
         oracle = staticmethod(lambda c, obs: None if obs.startswith("w0=") else "reference framer failed")
